@@ -544,8 +544,8 @@ func TestVerif_C23(t *testing.T) {
 			exp = append(exp, row)
 		}
 		arr := v.Arr
-		if rnd.Intn(4) == 0 { // any arrival order
-			arr = rnd.Perm(len(batch))
+		if nv%4 == 0 { // any arrival order
+			arr = rand.New(rand.NewSource(vSeed()*1000003 + int64(nv))).Perm(len(batch))
 			for i := range arr {
 				arr[i]++
 			}
